@@ -177,4 +177,4 @@ func (q *Req) DescribeProgs() []string {
 
 // OpNames for reports.
 var OpNames = []string{"yield", "writeHeader", "write", "flush", "next", "nextSwallow", "cancel", "mapExtra", "seeExtra", "panic", "echo",
-	"mark", "checkMark", "setHeader", "before", "render", "redirect", "status", "cookie", "seeSvc", "seeHeaders", "mapIface", "seeIface", "invoke", "apply", "seePath", "seeBody", "mapReturnHandler", "mutQuery", "replaceCtx"}
+	"mark", "checkMark", "setHeader", "before", "render", "redirect", "status", "cookie", "seeSvc", "seeHeaders", "mapIface", "seeIface", "invoke", "apply", "setContentLength", "seePath", "seeBody", "mapReturnHandler", "mutQuery", "replaceCtx"}
